@@ -50,6 +50,8 @@ def iteration_words(live, max_rej):
         ("R:-infP,empty", (NEG, pos["above"], False)),
         ("R:eqmin,empty", (0.0, pos["eq0"], False)),
         ("R:below,empty", (0.0, pos["below"], False)),
+        ("R:nanL,pop", (0.0, float("nan"), True)),
+        ("R:nanL,empty", (0.0, float("nan"), False)),
     ]
     acc = []
     for name, v in pos.items():
@@ -341,7 +343,7 @@ def run(ctx):
     ctx.set("exhaustive", True)
     ctx.assume(
         "part A: order-isomorphic live sets have isomorphic futures for every C01 observable (only comparisons are applied to logL), so the rank-compressed state space is finite and explored to the stated depth / fixpoint",
-        "part A: scripted answers never return NaN logL on a replacement draw; nlive > 5 only through part B",
+        "part A: a NaN logL on a replacement draw is in the alphabet as an answer that must be rejected; nlive > 5 only through part B",
         "part B: real runs on tiny Gaussian models with tiny flows; configurations outside the lattice are not covered",
     )
     shutil.rmtree(_tmp(), ignore_errors=True)
